@@ -13,11 +13,10 @@ theorem delete_chan_calls :
     Nsq.Gen.Life.deleteChanCalls = ["RLock", "RUnlock", "Delete", "Lock", "delete", "len", "Unlock", "Lock", "Unlock", "Do"] := by
   decide
 
-/-- the unlink removes the *name* (`Props.C08ChanDelete.witnessChanDouble`), or the name only while it still
-refers to the object that was looked up (fixes/F22); no early return for a deletion that lost the CAS on
+/-- the unlink removes the name only while it still refers to the object that was looked up (F22, /repo c687824;
+the by-name unlink of the older tree — `Props.C08ChanDelete.witnessChanDouble` — breaks this tie); no early return for a deletion that lost the CAS on
 either tree (its `Delete()` has waited for the winner's exit, see `chan_exit_under_exit_lock`) -/
 theorem delete_chan_unlink_shape :
-    Nsq.Gen.Life.deleteChanStmts = [] ∨
     Nsq.Gen.Life.deleteChanStmts = ["if t.channelMap[channelName] == channel"] := by decide
 
 /-- `Channel.exit`: `exitMutex.Lock()` with a deferred `Unlock` *before* the CAS, so that a second `Delete()`
@@ -49,6 +48,8 @@ theorem sync_every_validation_shape :
 def treeModel : Nsq.Model.ChanDelete.CSt :=
   { ownUnlink := Nsq.Gen.Life.deleteChanStmts == ["if t.channelMap[channelName] == channel"] }
 
-theorem tree_model_known : treeModel = {} ∨ treeModel = Nsq.Model.ChanDelete.fixedTree := by decide
+/-- F22 is committed (/repo c687824): the tree's instance is the repaired one (audit B12), so
+`Props.C08ChanDelete.no_chan_zombie_fixed` speaks about the tree -/
+theorem tree_model_known : treeModel = Nsq.Model.ChanDelete.fixedTree := by decide
 
 end Nsq.Tie.ChanDelete
